@@ -15,6 +15,7 @@ import (
 	"os"
 	"path/filepath"
 	"strings"
+	"syscall"
 
 	"cloud.google.com/go/storage"
 	"google.golang.org/api/iterator"
@@ -175,10 +176,19 @@ func (o *FSObject) Filename() string {
 
 func (o *FSObject) NewReader(ctx context.Context) (io.ReadCloser, error) {
 	r, err := os.Open(o.filename)
-	if errors.Is(err, os.ErrNotExist) {
+	if errors.Is(err, os.ErrNotExist) || errors.Is(err, syscall.ENOTDIR) {
+		// No such file, or a proper prefix of the name is an object.
 		return nil, ErrObjectNotExist
 	}
-	return r, err
+	if err != nil {
+		return nil, err
+	}
+	if fi, err := r.Stat(); err == nil && fi.IsDir() {
+		// The name is a proper prefix of stored object names, not an object.
+		r.Close()
+		return nil, ErrObjectNotExist
+	}
+	return r, nil
 }
 
 func (o *FSObject) NewWriter(ctx context.Context) (io.WriteCloser, error) {
